@@ -61,21 +61,21 @@ theorem step_close {b : B} {s : Spec.Broker.S} (h : R b s) (c : Nat) :
       by_cases he : c' = c
       · simp [he] at hτ
       · simp only [he, ↓reduceIte] at hτ; exact ⟨he, τ, hτ, rfl⟩
-    cases hwf : σ.willFlag with
-    | false =>
+    by_cases hwf : σ.willFlag = true
+    case neg =>
       have hkw : k.will = none := by
-        have := hrel.willFlag; rw [hwf] at this
+        have := hrel.willFlag
         cases hw : k.will with
         | none => rfl
-        | some w => rw [hw] at this; cases this
-      simp only [Bool.false_eq_true, ↓reduceIte, hkw]
+        | some w => rw [hw] at this; exact absurd this hwf
+      rw [if_neg hwf]
+      simp only [hkw]
       refine ⟨?_, accepts_lits (.cons (.closed c) .nil)⟩
-      cases hcl : σ.clean with
-      | false => simpa using R0
-      | true =>
-        simp only [↓reduceIte]
+      by_cases hcl : σ.clean = true
+      · rw [if_pos hcl]
         exact R_storeDel_ended h R0 hl hrel.store hσ hcl hlive0
-    | true =>
+      · rw [if_neg hcl]; exact R0
+    case pos =>
       have hkw : ∃ w, k.will = some w := by
         have := hrel.willFlag; rw [hwf] at this
         cases hw : k.will with
@@ -84,7 +84,8 @@ theorem step_close {b : B} {s : Spec.Broker.S} (h : R b s) (c : Nat) :
       obtain ⟨w, hkw⟩ := hkw
       have hσw : σ.will = some (willMsg w) := by rw [hrel.will, hkw]; rfl
       obtain ⟨wg, wn, wq⟩ := willOk_iff w (hrel.willOk w hkw)
-      simp only [↓reduceIte, hσw, hkw]
+      rw [if_pos hwf]
+      simp only [hσw, hkw]
       have hfr := (Mqtt.Proofs.BrokerQos.onPublish_frame (stopBase b c σ) (willMsg w)).1
       obtain ⟨R1, fan, _⟩ := R_onPublish R0 (willMsg w) wg wn wq (.inr (.inl rfl))
         (Mqtt.Proofs.Broker.Inv_onPublish _ _ R0.inv)
@@ -109,12 +110,13 @@ theorem step_close {b : B} {s : Spec.Broker.S} (h : R b s) (c : Nat) :
             { qos := w.qos, retain := w.retain, topic := w.topic, payload := w.payload }).2)
           (Out.closed c :: (onPublish (stopBase b c σ) (willMsg w)).2.2.1) := by
         have := accepts_shape (.cons (.closed c) .nil) fan .nil
-        simpa using this
+        simp only [List.cons_append, List.nil_append, List.append_nil] at this
+        exact this
       refine ⟨?_, hacc⟩
-      cases hcl : σ.clean with
-      | false => simpa using R2
-      | true =>
-        simp only [↓reduceIte]
+      by_cases hcl : σ.clean = true
+      case neg => rw [if_neg hcl]; exact R2
+      case pos =>
+        rw [if_pos hcl]
         refine R_storeDel_ended (σ' := { σ with will := some (onPublish (stopBase b c σ) (willMsg w)).2.1 })
           h R2 hl ?_ ?_ hcl ?_
         · show (onPublish (stopBase b c σ) (willMsg w)).1.storeGet σ.cid = some σ.ref
@@ -177,10 +179,13 @@ theorem step_disconnect {b : B} {s : Spec.Broker.S} (h : R b s) (c : Nat) (hal :
       intro hr
       exact hne (h.refUniq hτ0 hl hr))
   refine ⟨?_, accepts_lits (.cons (.closed c) .nil)⟩
-  cases hcl : σ.clean with
-  | false => simpa using R1
-  | true =>
-    simp only [↓reduceIte]
+  by_cases hcl : σ.clean = true
+  case neg =>
+    have : ({ σ with willFlag := false } : Sess).clean = σ.clean := rfl
+    rw [this, if_neg hcl]; exact R1
+  case pos =>
+    have : ({ σ with willFlag := false } : Sess).clean = σ.clean := rfl
+    rw [this, if_pos hcl]
     refine R_storeDel_ended (σ' := { σ with willFlag := false }) h R1 hl ?_ ?_ hcl ?_
     · exact hrel.store
     · exact Mqtt.Proofs.BrokerLife.getSess_setSess _ _
